@@ -609,3 +609,4 @@ MANIFEST = {
     "Measurement formats (C19) are outside this check; siunitx non-integer exponents are compared at the 3 decimals it prints.",
     "ref": "DESIGN.md §4 C09",
 }
+MANIFEST["text"] += " NumPy scalar and 0-d magnitudes format like the Python number; an empty spec formats exactly as the registry default_format given explicitly, for 10 default formats including '#'-only ones."
